@@ -313,6 +313,13 @@ def run_cli(case, text, obs):
     else:
         obs["counters"]["pairs_compared"] = 1
         obs["counters"]["cli_runs"] = 1
+        # "names the procedure after the input file": the stem when it is a legal BASIC09 name, else the fixed fallback
+        if opts["output_dependencies"] and got is not None:
+            legal = re.fullmatch(r"[a-zA-Z0-9_-]+", stem) is not None
+            wanted_header = "procedure " + (stem if legal else "program")
+            heads = [ln for ln in got.decode("utf-8", "replace").split("\r") if ln.lower().startswith("procedure ")]
+            if not heads or heads[-1] != wanted_header:
+                obs["viols"].append({"sig": "C11/cli/procedure-name", "detail": dict(detail, header=heads[-1:] , expected=wanted_header)})
         exp = want["out"].replace("\n", "\r").encode()
         if got != exp:
             gl = (got or b"").decode("latin1").split("\r")
@@ -361,7 +368,7 @@ def cases(tier, seed):
              ["-w", "-z", "-s255", "-l"], ["-w", "-D", "-z", "-l"], ["-D", "-l"], ["-s80", "-s16"], ["-l", "-l"], ["-lz"], ["-wDzl"],
              ["--filter-unused-linenum"], ["--dont-initialize-vars", "--dont-run-width-32"], ["--dont-output-dependencies", "-l"],
              ["--default-string-storage=48", "-z"], ["-z", "--default-string-storage=20", "-s70"], ["-c", "-D", "-s16"]]
-    stems = ["prog", "my-prog", "A_1", "x9"]
+    stems = ["prog", "my-prog", "A_1", "x9", "game.v2", "hello world", "star+", "caf\u00e9", "hello ", "9", "a.b.c", "x(1)"]
     k = 0
     for i, t in enumerate(ODD_TEXTS):
         # characters that line-splitting routines (not the tool's grammar) take for line ends, inside literals / comments / DATA
